@@ -189,6 +189,31 @@ M("c16-default-rejects-comment-in-object", "C16", "json_tokener.c",
 M("c16-benign-flag-test", "C16", "json_tokener.c",
   "\t\t\tif (c == '/' && !(tok->flags & JSON_TOKENER_STRICT))", "\t\t\tif (!(tok->flags & JSON_TOKENER_STRICT) && c == 0x2f)", expect="silent")
 
+# ---- C15 -------------------------------------------------------------------------------------
+M("c15-off-by-one-loose", "C15", "json_tokener.c",
+  "\t\t\tif (tok->depth >= tok->max_depth - 1)\n\t\t\t{\n\t\t\t\ttok->err = json_tokener_error_depth;\n\t\t\t\tgoto out;\n\t\t\t}\n\t\t\tstate = json_tokener_state_object_value_add;",
+  "\t\t\tif (tok->depth > tok->max_depth - 1)\n\t\t\t{\n\t\t\t\ttok->err = json_tokener_error_depth;\n\t\t\t\tgoto out;\n\t\t\t}\n\t\t\tstate = json_tokener_state_object_value_add;",
+  needle="depth")
+M("c15-off-by-one-tight", "C15", "json_tokener.c",
+  "\t\t\t\tif (tok->depth >= tok->max_depth - 1)\n\t\t\t\t{\n\t\t\t\t\ttok->err = json_tokener_error_depth;",
+  "\t\t\t\tif (tok->depth >= tok->max_depth - 2)\n\t\t\t\t{\n\t\t\t\t\ttok->err = json_tokener_error_depth;", needle="within the limit")
+M("c15-alloc-one-less", "C15", "json_tokener.c",
+  "calloc(depth, sizeof(struct json_tokener_srec));", "calloc(depth - 1, sizeof(struct json_tokener_srec));", needle="stack")
+M("c15-accept-zero-depth", "C15", "json_tokener.c",
+  "\tif (depth < 1)\n\t\treturn NULL;\n", "\tif (depth < 0)\n\t\treturn NULL;\n", needle="limit below 1")
+M("c15-wrong-error", "C15", "json_tokener.c",
+  "\t\t\t\tif (tok->depth >= tok->max_depth - 1)\n\t\t\t\t{\n\t\t\t\t\ttok->err = json_tokener_error_depth;",
+  "\t\t\t\tif (tok->depth >= tok->max_depth - 1)\n\t\t\t\t{\n\t\t\t\t\ttok->err = json_tokener_error_parse_array;", needle="")
+M("c15-pop-unguarded", "C15", "json_tokener.c",
+  "\t\t\tif (tok->depth == 0)\n\t\t\t\tgoto out;\n\t\t\tobj = json_object_get(current);",
+  "\t\t\tif (tok->depth == 0 && c)\n\t\t\t\tgoto out;\n\t\t\tobj = json_object_get(current);", needle="depth")
+M("c15-fromfd-ignores-depth", "C15", "json_util.c",
+  "tok = json_tokener_new_ex(depth);", "tok = json_tokener_new_ex(JSON_TOKENER_DEFAULT_DEPTH);", needle="json_object_from_fd_ex")
+M("c15-benign-guard-form", "C15", "json_tokener.c",
+  "\t\t\tif (tok->depth >= tok->max_depth - 1)\n\t\t\t{\n\t\t\t\ttok->err = json_tokener_error_depth;\n\t\t\t\tgoto out;\n\t\t\t}\n\t\t\tstate = json_tokener_state_object_value_add;",
+  "\t\t\tif (tok->depth + 1 > tok->max_depth - 1)\n\t\t\t{\n\t\t\t\ttok->err = json_tokener_error_depth;\n\t\t\t\tgoto out;\n\t\t\t}\n\t\t\tstate = json_tokener_state_object_value_add;",
+  expect="silent")
+
 
 def sh(cmd, **kw):
     return subprocess.run(cmd, shell=isinstance(cmd, str), stdout=subprocess.PIPE, stderr=subprocess.STDOUT, text=True, **kw)
